@@ -47,8 +47,10 @@ def cells(tier):
     q = tier == "quick"
     cs = []
 
-    def add(entry, name, tpl, budget, sep=None, week=False):
-        params = dict(entry=entry, tpl=tpl, mode="c07", sep=sep)
+    def add(entry, name, tpl, budget, sep=None, week=False, via="bytes"):
+        params = dict(entry=entry, tpl=tpl, mode="c07", sep=sep, via=via)
+        if via != "bytes":
+            name += "[%s]" % via
         if week and q:
             for r in REPR:     # one cell per year residue: they run in parallel
                 cs.append(Cell(M, "h_iso", dict(params, year_residues=[r]), name="%s/%s[y%%400=%d]" % (entry, name, r),
@@ -89,6 +91,10 @@ def cells(tier):
                     for tzn in TZS:
                         for sepb, sep in ((84, None), (Q, None), (32, " ")):
                             combos.append((dn, tn, k, tzn, sepb, sep))
+    # the longest documented rendering, handed over as a stream (str / bytes / stream inputs must be equivalent)
+    long_tpl = DATES["YYYY-MM-DD"] + [84] + TIMES["hh:mm:ss"] + frac(9, False) + TZS["+hh:mm"]
+    add("dt", "YYYY-MM-DDThh:mm:ss.9+hh:mm", long_tpl, 300 * big, via="stream")
+    add("time", "hh:mm:ss.9+hh:mm", TIMES["hh:mm:ss"] + frac(9, False) + TZS["+hh:mm"], 200 * big, via="stream")
     for (dn, tn, k, tzn, sepb, sep) in combos:
         tpl = DATES[dn] + [sepb] + TIMES[tn] + (frac(k, False) if k else []) + TZS[tzn]
         nm = "%s%s%s%s%s" % (dn, {84: "T", 32: "_", Q: "?"}[sepb], tn, (".%d" % k) if k else "", tzn)
@@ -107,7 +113,7 @@ ASSUMPTIONS = [
     "quick tier: week-date forms are decided for years congruent mod 400 to one of %r; thorough: all years" % (REPR,),
     "sep=None cells with a free separator byte: a digit as separator is outside the inverse law (the reference then only demands correctness when accepted)",
 ]
-OUTSIDE = ["str and stream inputs", "fractions longer than the listed digit counts", "forms not in the cell list"]
+OUTSIDE = ["str inputs (.encode('ascii') realises a symbolic str); stream inputs are covered for the two longest forms only", "fractions longer than the listed digit counts", "forms not in the cell list"]
 
 
 def run(tier, seed, jobs):
